@@ -21,7 +21,8 @@ def sh(cmd, cwd=None, timeout=7200, env=None):
 
 
 def prepare_slot(slot):
-    wt, hd, td = "/tmp/sc_wt_%d" % slot, "/tmp/sc_h_%d" % slot, "/tmp/sc_t_%d" % slot
+    tag = "%d_%d" % (os.getpid(), slot)
+    wt, hd, td = "/tmp/sc_wt_%s" % tag, "/tmp/sc_h_%s" % tag, "/tmp/sc_t_%s" % tag
     sh("git -C /repo worktree remove --force %s" % wt)
     r = sh("git -C /repo worktree add -q --detach %s HEAD" % wt)
     if r.returncode != 0:
@@ -61,8 +62,8 @@ def worker(slot, q, out, lock, tier, all_props):
                 else:
                     for p in (allp if all_props else props):
                         t0 = time.time()
-                        ev = "/tmp/sc_ev_%d_%s.json" % (slot, p)
-                        c = sh("%s run %s --tier %s --evidence %s --findings %s/known_findings.json --replays /tmp/sc_replays_%d" % (binp, p, tier, ev, ROOT, slot), cwd=ROOT)
+                        ev = "/tmp/sc_ev_%d_%d_%s.json" % (os.getpid(), slot, p)
+                        c = sh("%s run %s --tier %s --evidence %s --findings %s/known_findings.json --replays /tmp/sc_replays_%d_%d" % (binp, p, tier, ev, ROOT, os.getpid(), slot), cwd=ROOT)
                         keys = [l.strip() for l in c.stdout.splitlines() if l.strip().startswith("key=")]
                         row["checks"][p] = {"exit": c.returncode, "violation": "VIOLATION property=%s" % p in c.stdout, "keys": [k.split(" cases=")[0][4:] for k in keys][:6], "wall_s": round(time.time() - t0, 1)}
                         if c.returncode not in (0, 1):
@@ -74,7 +75,7 @@ def worker(slot, q, out, lock, tier, all_props):
                 print("%-14s caught_by=%s %s %s" % (name, row["caught_by"], {p: (r["exit"], r["wall_s"]) for p, r in row["checks"].items()}, row.get("error", "")), flush=True)
     finally:
         sh("git -C /repo worktree remove --force %s" % wt)
-        for p in (hd, td, "/tmp/sc_replays_%d" % slot):
+        for p in (hd, td, "/tmp/sc_replays_%d_%d" % (os.getpid(), slot)):
             shutil.rmtree(p, ignore_errors=True)
 
 
